@@ -3082,6 +3082,12 @@ func (p *Posix) DeleteObject(ctx context.Context, input *s3.DeleteObjectInput) (
 	}
 
 	objpath := filepath.Join(bucket, object)
+	if objpath == filepath.Clean(bucket) {
+		// a key of nothing but slashes names no object: it must not
+		// resolve to (and remove) the bucket directory itself.
+		// AWS returns success if the object does not exist
+		return &s3.DeleteObjectOutput{}, nil
+	}
 
 	vStatus, err := p.getBucketVersioningStatus(ctx, bucket)
 	if err != nil {
